@@ -718,4 +718,16 @@ Qed.
     destruct (sig_at name kid (JObj m)) as [s|] eqn:A; [|discriminate].
     eapply sig_at_is_listed. exact A.
   Qed.
+
+  (* the text-level SignJSON is parse, sign the value, print canonically *)
+  Lemma sign_json_unfold name kid k t st :
+    Model.sign_json key sign name kid k t = Some st <->
+    exists v o, parse_json t = Some v /\ sign_value name kid k v = Some o /\ st = canon_print o.
+  Proof.
+    unfold Model.sign_json. split.
+    - destruct (parse_json t) as [v|]; [|discriminate].
+      destruct (Model.sign_value key sign name kid k v) as [o|] eqn:E; [|discriminate].
+      intro H. inversion H. exists v, o. repeat split. exact E.
+    - intros [v [o [P [S ->]]]]. rewrite P, S. reflexivity.
+  Qed.
 End Scheme.
